@@ -168,6 +168,8 @@ func onlyCallers(c *Ctx, rule string, fn *ssa.Function, allowed map[string]strin
 		k := FuncName(fn) + "#caller:" + name
 		if reason, ok := allowed[name]; ok {
 			c.Pass(rule, k, r.Pos(), 1, "allowed caller (%s)", reason)
+		} else if via := helperOfAllowed(c, r, allowed, 2); via != "" {
+			c.Pass(rule, k, r.Pos(), 2, "unexported helper called only from allowed caller(s) %s", via)
 		} else {
 			c.Fail(rule, k, r.Pos(), 1, "%s is called by %s, which is not in the allowed caller table %v", FuncName(fn), name, keys(allowed))
 		}
@@ -461,4 +463,129 @@ func returnedClosures(fn *ssa.Function, i int) []*ssa.Function {
 		}
 	}
 	return out
+}
+
+// effectSites returns the call instructions of fn that perform the effect described by
+// direct, either themselves or through a same-package helper (a static callee, to the
+// given depth, whose body contains a direct site).  Helper extraction therefore does
+// not change the set of obligations.
+func effectSites(c *Ctx, fn *ssa.Function, direct func(ssa.CallInstruction) bool, depth int) []ssa.CallInstruction {
+	var out []ssa.CallInstruction
+	AllInstrs(fn, false, func(in ssa.Instruction) {
+		ci, ok := in.(ssa.CallInstruction)
+		if !ok {
+			return
+		}
+		if direct(ci) {
+			out = append(out, ci)
+			return
+		}
+		if depth <= 0 {
+			return
+		}
+		sf := StaticFn(ci.Common())
+		if sf == nil || sf.Blocks == nil || sf == fn || FuncPkgPath(sf) != FuncPkgPath(fn) {
+			return
+		}
+		if len(effectSites(c, sf, direct, depth-1)) > 0 {
+			c.Touch(sf)
+			out = append(out, ci)
+		}
+	})
+	return out
+}
+
+// outcomeChecked: the (error or nillable) result of ci is compared with nil somewhere in fn.
+func outcomeChecked(fn *ssa.Function, ci ssa.CallInstruction) bool {
+	if ev := ErrResult(ci); ev != nil {
+		return len(NilEdges(fn, FlowSet(ev))) > 0
+	}
+	v := ci.Value()
+	if v == nil {
+		return false
+	}
+	fs := FlowSet(v)
+	if len(NilEdges(fn, fs)) > 0 {
+		return true
+	}
+	// handed to the caller as this function's own outcome
+	for _, r := range Returns(fn) {
+		for i := range r.Results {
+			if fs[RetVal(r, i)] {
+				return true
+			}
+		}
+	}
+	return false
+}
+
+// deepMatcher widens m to calls of same-package helpers (static callees in pkgPath, to the
+// given depth) whose body contains a call matched by m.
+func deepMatcher(m Matcher, pkgPath string, depth int) Matcher {
+	memo := map[*ssa.Function]bool{}
+	var has func(f *ssa.Function, d int) bool
+	has = func(f *ssa.Function, d int) bool {
+		if v, ok := memo[f]; ok {
+			return v
+		}
+		memo[f] = false
+		found := false
+		AllInstrs(f, false, func(in ssa.Instruction) {
+			if found {
+				return
+			}
+			if ci, ok := in.(ssa.CallInstruction); ok {
+				if m(ci.Common()) {
+					found = true
+					return
+				}
+				if d > 0 {
+					if sf := StaticFn(ci.Common()); sf != nil && sf.Blocks != nil && FuncPkgPath(sf) == pkgPath && has(sf, d-1) {
+						found = true
+					}
+				}
+			}
+		})
+		memo[f] = found
+		return found
+	}
+	return func(cc *ssa.CallCommon) bool {
+		if m(cc) {
+			return true
+		}
+		sf := StaticFn(cc)
+		return sf != nil && sf.Blocks != nil && FuncPkgPath(sf) == pkgPath && has(sf, depth-1)
+	}
+}
+
+// helperOfAllowed: r is an unexported declared function all of whose callers are allowed
+// callers (or such helpers themselves, to the given depth).  Returns the allowed callers
+// it serves, or "".  Extracting part of an allowed caller into a helper keeps the
+// who-may-call verdict; the per-caller guard rules look through such helpers themselves.
+func helperOfAllowed(c *Ctx, r *ssa.Function, allowed map[string]string, depth int) string {
+	if depth <= 0 || r.Object() == nil || r.Object().Exported() {
+		return ""
+	}
+	roots := c.P.CallerRoots(r)
+	if len(roots) == 0 {
+		return ""
+	}
+	var via []string
+	for _, cr := range roots {
+		n := FuncName(cr)
+		if cr == r {
+			continue
+		}
+		if _, ok := allowed[n]; ok {
+			via = append(via, n)
+			continue
+		}
+		if v := helperOfAllowed(c, cr, allowed, depth-1); v != "" {
+			via = append(via, v)
+			continue
+		}
+		return ""
+	}
+	sortStrings(via)
+	return strings.Join(via, ",")
 }
